@@ -76,12 +76,26 @@ def gen(rng, k):
         step = (a if ax == 0 else b)[ax]
         kk = int(round((target - zero[ax]) / step))
         zero[ax] = target - kk * step
+    steps = 3
+    corr_name = ("fast", "fullframe", "sparse")[(k // 3) % 3]
+    if k % 7 == 5:
+        # a search radius below the number of sparse steps (run_refine's default is steps=5): the margin is the pattern's search
+        # radius for every correlation method; a lattice row / column sits between search and steps from a border
+        radius, steps = 2.0, 5
+        search = float(rng.choice([3.0, 3.5, 4.25]))
+        ax, side = int(rng.integers(0, 2)), int(rng.integers(0, 2))
+        d = search + float(rng.uniform(0.1, 0.9)) * (steps - search)
+        target = d if side == 0 else shape[ax] - d - 1e-3
+        step = (a if ax == 0 else b)[ax]
+        kk = int(round((target - zero[ax]) / step))
+        zero[ax] = target - kk * step
+        corr_name = ("sparse", "sparse", "fast", "fullframe")[(k // 7) % 4]
     nfr = int(rng.integers(1, 7))
     zmode = k % 3
     zs = [None, np.round(rng.uniform(-2, 2, 2), 2).tolist(), np.round(rng.uniform(-2, 2, (nfr, 2)), 2).tolist()][zmode]
     return {"seed": int(rng.integers(1 << 30)), "radius": radius, "search": search, "shape": shape, "zero": zero, "a": a, "b": b,
-            "nframes": nfr, "zero_shift": zs, "partitions": partitions_of(rng, nfr),
-            "correlation": ("fast", "fullframe", "sparse")[(k // 3) % 3], "match": ("fast", "affine")[k % 2],
+            "nframes": nfr, "zero_shift": zs, "partitions": partitions_of(rng, nfr), "steps": steps,
+            "correlation": corr_name, "match": ("fast", "affine")[k % 2],
             "layout": ("mgrid", "list", "mgrid", "pair2", "list", "mgrid")[(k // 2) % 6],
             "pairs": [[[0, 0], [1, 0]], [[0, 1], [-1, 1]], [[1, 2], [0, -1]], [[0, 0], [0, 1]]][int(rng.integers(4))], "tolerance": float(rng.choice([1.0, 1.5, 3.0])),
             "zero_as": ("ndarray", "tuple")[(k // 4) % 2]}
@@ -145,7 +159,7 @@ def run_case(kind, q):
             try:
                 res, used = run_refine(Context(partitions=q["partitions"]), ds, zero=zero_arg, a=a_arg, b=b_arg,
                                        match_pattern=pat, matcher=matcher, correlation=corr_name, match=q["match"],
-                                       indices=indices, steps=3, zero_shift=zarg)
+                                       indices=indices, steps=q.get("steps", 3), zero_shift=zarg)
             except Exception as e:
                 return [f"run_refine({corr_name}, {q['match']}) raised {type(e).__name__}: {e}"]
             finally:
